@@ -233,6 +233,7 @@ func runC13(ctx *core.Ctx, out *core.Out) {
 	host := c13Hosts[r.Intn(len(c13Hosts))]
 	realMode := ctx.Idx%4 == 3 || os.Getenv("WSVERIF_C13_REAL") == "1"
 	var origin []string
+	foreign := "evil.example.net" // the host the foreign origin names (for forwarding headers that repeat it)
 	wantAccept := true
 	kind := "no-origin"
 	scheme := []string{"http", "https", "http", "https", "ws", "chrome-extension", "file"}[r.Intn(7)]
@@ -262,6 +263,7 @@ func runC13(ctx *core.Ctx, out *core.Out) {
 		m, mk := mutateHost(r, host)
 		origin = []string{scheme + "://" + m + []string{"", "", "/"}[r.Intn(3)]}
 		wantAccept, kind = false, mk
+		foreign = m
 	case k == 15:
 		origin = []string{scheme + "://" + host + "@evil.example.net"}
 		wantAccept, kind = false, "userinfo-trick"
@@ -294,7 +296,8 @@ func runC13(ctx *core.Ctx, out *core.Out) {
 	var extra []string
 	if r.Chance(1, 3) {
 		cands := [][2]string{{"Sec-Fetch-Site", "same-origin"}, {"Sec-Fetch-Site", "cross-site"}, {"Sec-Fetch-Mode", "websocket"}, {"Referer", "http://" + host + "/page"}, {"X-Forwarded-Host", host},
-			{"X-Forwarded-Proto", "https"}, {"Forwarded", "host=" + host}, {"X-Original-Host", host}, {"Access-Control-Request-Headers", "origin"}, {"Cookie", "session=1"}, {"X-Requested-With", "XMLHttpRequest"}}
+			{"X-Forwarded-Proto", "https"}, {"Forwarded", "host=" + host}, {"X-Original-Host", host},
+			{"X-Forwarded-Host", foreign}, {"X-Forwarded-Host", foreign + ", " + host}, {"Forwarded", "host=" + foreign}, {"X-Original-Host", foreign}, {"X-Host", foreign}, {"X-Forwarded-Server", foreign}, {"Access-Control-Request-Headers", "origin"}, {"Cookie", "session=1"}, {"X-Requested-With", "XMLHttpRequest"}}
 		for i, n := 0, r.Range(1, 3); i < n; i++ {
 			c := cands[r.Intn(len(cands))]
 			if _, dup := q.H[c[0]]; !dup && !isExotic(c[1]) {
